@@ -131,6 +131,7 @@ def correspond(ctx):
 def oracle_one(name, args, evs, ids):
     """None or (key, what). Checks the property's clauses on the real filter."""
     import random as _random
+    import sparkx.Filter  # noqa: F401  (the first import of sparkx itself advances `random`)
     before = {id(p): p.data_.copy() for ev in evs for p in ev}
     env0 = (_random.getstate(), np.random.get_state()[1].tobytes(), np.geterr(), np.get_printoptions())
     res, err = run_real(name, args, evs)
